@@ -256,6 +256,31 @@ func NamesSrc(features []string) Src {
 	return s
 }
 
+// String names the shape of a feature source compactly (used in reports).
+func (s Src) String() string {
+	switch s.Op {
+	case "names", "":
+		if s.B {
+			return fmt.Sprintf("names+%d", len(s.Xs))
+		}
+		return fmt.Sprintf("names-%d", len(s.Xs))
+	case "table":
+		return fmt.Sprintf("table(+%d,-%d)", len(s.Xs), len(s.Ys))
+	case "dirs":
+		return fmt.Sprintf("dirs(%d,%d)", len(s.Xs), len(s.Ys))
+	case "multi", "config":
+		parts := []string{}
+		for _, m := range s.Ms {
+			parts = append(parts, m.String())
+		}
+		if s.Op == "config" {
+			return fmt.Sprintf("Config{caps:%d,Features:%s}", len(s.Xs), strings.Join(parts, ","))
+		}
+		return "Multi(" + strings.Join(parts, ",") + ")"
+	}
+	return s.Op
+}
+
 // Norm makes every list an empty array instead of null (the TLA+ JSON reader rejects null).
 func (s Src) Norm() Src {
 	out := Src{Op: s.Op, B: s.B, Xs: [][]string{}, Ys: [][]string{}, Ms: []Src{}}
@@ -323,11 +348,11 @@ func (s Src) checker(tmp *string) (compile.FeaturesChecker, error) {
 		return compile.FeaturesFromNames(s.B, names(s.Xs)...), nil
 	case "table":
 		t := tableChecker{}
-		for _, n := range names(s.Xs) {
-			t[n] = compile.ENABLED
-		}
 		for _, n := range names(s.Ys) {
 			t[n] = compile.DISABLED
+		}
+		for _, n := range names(s.Xs) { // (a feature listed in both is Enabled, as in SrcStatus)
+			t[n] = compile.ENABLED
 		}
 		return t, nil
 	case "dirs":
